@@ -86,3 +86,10 @@ func VerifResolveLinks(pages []VerifPageData) ([][]Link, [][]backend.Anchor) {
 func VerifMakeBookmarkTree(pages []VerifPageData) []backend.BookmarkNode {
 	return verifDocument(pages).makeBookmarkTree()
 }
+
+// VerifMatrix returns the matrix gatherLinksAndBookmarks / drawStackingContext
+// apply for the CSS transform of this box (getMatrix), if any.
+func VerifMatrix(box bo.Box) (a, b, c, d, e, f utils.Fl, ok bool) {
+	m, ok := getMatrix(box)
+	return m.A, m.B, m.C, m.D, m.E, m.F, ok
+}
